@@ -398,6 +398,8 @@ class ConcreteEnv:
 
     def _get(self, name):
         self.used.add(name)
+        if name not in self.values:
+            raise AssumeFailed("input %s not in the recorded assignment" % name)
         return self.values[name]
 
     def int(self, name, lo, hi):
